@@ -697,19 +697,104 @@ def c16_oracle(ctx, g):
 # C17 — the XSD dialect
 
 
+def c17_scan(p):
+    """(XPath-only constructs outside classes, the pattern with bare ^ and $ outside classes escaped)"""
+    only, out = [], []
+    depth, i, n = 0, 0, len(p)
+    after_quant = False
+    while i < n:
+        c = p[i]
+        if c == "\\" and i + 1 < n:
+            d = p[i + 1]
+            if depth == 0 and d.isdigit():
+                only.append("back-reference")
+            if depth == 0 and d == "$":
+                only.append("escape \\$")
+            out.append(p[i:i + 2])
+            i += 2
+            after_quant = False
+            continue
+        if depth > 0:
+            if c == "[":
+                depth += 1
+            elif c == "]":
+                depth -= 1
+            out.append(c)
+            i += 1
+            after_quant = False
+            continue
+        if c == "[":
+            depth = 1
+            out.append(c)
+            i += 1
+            if i < n and p[i] == "^":
+                out.append("^")
+                i += 1
+            after_quant = False
+            continue
+        if c == "(" and p[i + 1:i + 3] == "?:":
+            only.append("non-capturing group")
+            out.append("(?:")
+            i += 3
+            after_quant = False
+            continue
+        if c in "?*+":
+            if after_quant and c == "?":
+                only.append("reluctant quantifier")
+                after_quant = False
+            else:
+                after_quant = True
+            out.append(c)
+            i += 1
+            continue
+        if c == "{":
+            j = p.find("}", i)
+            if j > 0:
+                out.append(p[i:j + 1])
+                i = j + 1
+                after_quant = True
+                continue
+        after_quant = False
+        out.append("\\" + c if c in "^$" else c)
+        i += 1
+    return only, "".join(out)
+
+
+C17_NULLABLE_PIECES = ["(a*)", "(a?)", "(|a)", "(a{0,3})", "((a)*)", "(a*|b)", "a", "(a)", "(a+)", "[ab]", ".", "\\d", "(a|b)", "^", "$", "()"]
+C17_RELUCTANT = ["??", "*?", "+?", "{2}?", "{1,2}?", "{0,}?", "{0,1}?"]
+
+
 def c17_streams(ctx):
     r = ctx.rnd
     gs = []
     apis = [("compile", ""), ("is_match", ""), ("replace", "<$0>"), ("tokenize", ""), ("analyze", "")]
+    for piece in C17_NULLABLE_PIECES:
+        for q in C17_RELUCTANT:
+            for pre, post in (("", ""), ("x", "y"), ("", "b")):
+                p = pre + piece + q + post
+                gs.append(Group([Case(p, "", "compile", dialect="xs"), Case(p, "", "compile", dialect="xp")], {"features": set(), "input": "", "reject": "reluctant quantifier"}))
+    # quantified ^ and $ are quantified ordinary characters in XSD
+    for a in "^$":
+        for q in ["?", "*", "+", "{2}", "{1,2}", "{0,2}", "{0}"]:
+            for pre, post in (("a", "b"), ("", ""), ("(", ")=")):
+                p = pre + a + q + post
+                for s in [pre.strip("(") + a * k + post.strip(")") for k in range(0, 4)] + ["a" + a + a + a + "b", ""]:
+                    cs = []
+                    for api, repl in apis:
+                        cs.append(Case(p, "", api, s, repl, dialect="xs"))
+                        cs.append(Case(c17_scan(p)[1], "", api, s, repl, dialect="xp"))
+                    gs.append(Group(cs, {"features": set(), "input": s, "xsdish": True, "family": "quantified literal anchor"}))
     for i in range(ctx.scale(1800, 25000)):
         xsdish = r.random() < 0.6
         ast, p, alpha = gen_pattern(ctx, xsd=xsdish, alphabet=r.choice(["abc", "ab$", "a^b", "ab"]))
         f = r.choice(["", "i", "s", "m", "x", "q", "iq"])
         s = rand_input(ctx, alpha, 7)
         cs = []
+        pesc = c17_scan(p)[1] if "q" not in f else p
         for api, repl in apis:
             cs.append(Case(p, f, api, s, repl, dialect="xs"))
-            cs.append(Case(p, f, api, s, repl, dialect="xp"))
+            cs.append(Case(pesc, f, api, s, repl, dialect="xp"))
+        cs.append(Case(p, f, "compile", dialect="xp"))
         gs.append(Group(cs, {"features": features(ast), "input": s, "ast": ast, "xsdish": xsdish}))
     # XPath-only constructs must be rejected by Regex::xsd
     for p, why in [("a*?", "reluctant quantifier"), ("a+?b", "reluctant quantifier"), ("a{1,2}?", "reluctant quantifier"), ("(?:a)", "non-capturing group"),
@@ -739,16 +824,21 @@ def c17_oracle(ctx, g):
         return []
     cx, cp = g.impl[0], g.impl[1]
     p = g.cases[0].pattern
+    pesc = g.cases[1].pattern
     ctx.hist[f"xsd:{cx[:6]} xpath:{cp[:6]}"] += 1
     out = []
     if cx == "OK" and cp != "OK" and "q" not in g.cases[0].flags:
-        out.append(f"{p!r} is accepted by Regex::xsd but rejected by Regex::xpath ({cp})")
-    if cx == "OK" and cp == "OK" and "^" not in p and "$" not in p:
+        out.append(f"{p!r} is accepted by Regex::xsd but rejected by Regex::xpath ({cp}; ^ and $ written \\^ and \\$: {pesc!r})")
+    only = c17_scan(p)[0] if "q" not in g.cases[0].flags and "x" not in g.cases[0].flags else []
+    if only and cx == "OK":
+        out.append(f"{p!r} contains an XPath-only construct ({only[0]}) and is accepted by Regex::xsd")
+    if cx == "OK" and cp == "OK":
         ctx.distinct.add((p, g.cases[0].flags, g.meta["input"]))
         sample(ctx, g)
-        for k in range(2, len(g.cases), 2):
+        for k in range(2, len(g.cases) - 1, 2):
             if g.impl[k] != g.impl[k + 1] and not out:
-                out.append(f"{g.cases[k].api}({p!r}, flags {g.cases[k].flags!r}, {g.meta['input']!r}): xsd {g.impl[k][:50]!r} vs xpath {g.impl[k + 1][:50]!r}")
+                how = "" if p == pesc else f" (the same pattern with ^ and $ escaped: {pesc!r})"
+                out.append(f"{g.cases[k].api}({p!r}, flags {g.cases[k].flags!r}, {g.meta['input']!r}): xsd {g.impl[k][:50]!r} vs xpath {g.impl[k + 1][:50]!r}{how}")
     return out[:1]
 
 
@@ -1135,8 +1225,9 @@ def c19_oracle(ctx, g):
 # C20 — equivalent spellings
 
 
-def apply_law(r, ast):
-    """rewrite one node by a law of regular-expression algebra; returns (new ast, law name, preserves ordered choice) or None"""
+def apply_law(r, ast, every=False):
+    """rewrite one node by a law of regular-expression algebra; returns (new ast, law name, preserves ordered choice) or None;
+    with every=True the list of all single-node rewrites"""
     nodes = []
 
     def collect(n, path):
@@ -1151,6 +1242,7 @@ def apply_law(r, ast):
             collect(n[1], path + [1])
     collect(ast, [])
     r.shuffle(nodes)
+    allr = []
 
     def has_cap(n):
         return any(x[0] == "grp" and x[1] for x in rxlib.walk(n))
@@ -1197,10 +1289,75 @@ def apply_law(r, ast):
             # capturing → non-capturing when no back-reference exists at all and it is the last group (numbers stay)
             cands.append(None)
         cands = [c for c in cands if c]
-        if cands:
+        if every:
+            allr.extend((replace_at(ast, path, new), law, ordered) for new, law, ordered in cands)
+        elif cands:
             new, law, ordered = r.choice(cands)
             return replace_at(ast, path, new), law, ordered
-    return None
+    return allr if every else None
+
+
+def qspell(mn, mx):
+    return {(0, None): "*", (1, None): "+", (0, 1): "?"}.get((mn, mx)) or ("{%d}" % mn if mn == mx else "{%d,%s}" % (mn, "" if mx is None else mx))
+
+
+def derive(r, n):
+    """a random string of the language of a (back-reference-free) AST"""
+    t = n[0]
+    if t == "lit":
+        return n[1]
+    if t in ("bol", "eol"):
+        return ""
+    if t == "dot":
+        return r.choice("ab")
+    if t == "cls":
+        its = [it for it in n[2] if it[0] in "cr"]
+        if n[1] or not its:
+            return "a"
+        it = r.choice(its)
+        return it[1] if it[0] == "c" else chr(r.randint(ord(it[1]), ord(it[2])))
+    if t == "grp":
+        return derive(r, n[2])
+    if t == "alt":
+        return derive(r, r.choice(n[1]))
+    if t == "seq":
+        return "".join(derive(r, b) for b in n[1])
+    if t == "rep":
+        mx = n[3] if n[3] is not None else n[2] + 2
+        return "".join(derive(r, n[1]) for _ in range(r.randint(n[2], min(mx, n[2] + 2))))
+    return ""
+
+
+def c20_stress(ctx):
+    """quantified groups whose body can match in several ways or is itself a counted repeat, with a continuation that forces
+    the matcher back into the body — every law applied at every node"""
+    r = ctx.rnd
+    A, B = ("lit", "a"), ("lit", "b")
+    rep = lambda b, mn, mx: ("rep", b, mn, mx, True, qspell(mn, mx))
+    cls = ("cls", False, [("c", "a"), ("c", "b")], None)
+    bodies = [("alt", [A, ("seq", [A, B])]), ("seq", [rep(A, 1, None), rep(B, 0, 1)]), rep(A, 2, 2), rep(cls, 2, 2), ("seq", [A, A]),
+              ("alt", [rep(A, 2, 2), rep(A, 2, 2)]), ("alt", [("seq", [A, B]), A]), rep(A, 1, 2), ("seq", [rep(A, 0, 1), B]), rep(("seq", [A, B]), 2, 2),
+              rep(A, 3, 3), ("alt", [B, ("seq", [B, A]), A])]
+    quants = [(2, 2), (1, 3), (2, 3), (0, None), (1, None), (0, 1), (0, 2), (3, 3), (1, 2)]
+    tails = [[("lit", "c")], [], [A], [B, ("lit", "c")]]
+    pats = [(b, q, t, anch) for b in bodies for q in quants for t in tails for anch in (False, True)]
+    gs = []
+    for b, (mn, mx), tail, anch in r.sample(pats, ctx.scale(170, len(pats))):
+        items = ([("bol",)] if anch else []) + [rep(("grp", False, b, 0), mn, mx)] + tail + ([("eol",)] if anch else [])
+        ast = ("seq", items)
+        p = render(ast)
+        rw = apply_law(r, ast, every=True)
+        alpha = "abc" if any(x == ("lit", "c") for x in tail) else "ab"
+        pool = [s for s in rxlib.strings_upto(alpha, 6) if len(s) >= 2]
+        for ast2, law, ordered in (rw if not ctx.quick() else r.sample(rw, min(4, len(rw)))):
+            p2 = render(ast2)
+            fe = features(ast) | features(ast2)
+            members = {derive(r, ast)[:9] for _ in range(ctx.scale(8, 40))}
+            members |= {"b" + m for m in list(members)[:2]} | {m + "a" for m in list(members)[:2]}
+            for s in r.sample(pool, ctx.scale(5, 40)) + sorted(members):
+                cs = [Case(p, "", "is_match", s), Case(p2, "", "is_match", s), Case(p, "", "analyze", s), Case(p2, "", "analyze", s)]
+                gs.append(Group(cs, {"features": fe, "input": s, "law": law, "ordered": ordered, "p2": p2}))
+    return gs
 
 
 def c20_streams(ctx):
@@ -1219,7 +1376,7 @@ def c20_streams(ctx):
             s = rand_input(ctx, alpha, 7, "\n" if "m" in f else "")
             cs = [Case(p, f, "is_match", s), Case(p2, f, "is_match", s), Case(p, f, "analyze", s), Case(p2, f, "analyze", s)]
             gs.append(Group(cs, {"features": fe, "input": s, "law": law, "ordered": ordered, "p2": p2}))
-    return gs
+    return gs + c20_stress(ctx)
 
 
 def c20_oracle(ctx, g):
